@@ -120,6 +120,22 @@ func checkCutsLoop(dump []byte, f *bc.File, all bool, extra []int, cur, curMode 
 				}
 			}
 		}
+		// inside every section: the boundaries after each 128th element (a
+		// loader that reads or allocates in blocks of 2^k elements)
+		for _, sec := range f.Sections {
+			j := 0
+			for _, b := range bounds {
+				if b < sec.Start || b > sec.End {
+					continue
+				}
+				if m := j % 128; m <= 1 || m == 127 {
+					add(b - 1)
+					add(b)
+					add(b + 1)
+				}
+				j++
+			}
+		}
 		for m := 4096; m < len(dump)+4096; m += 4096 {
 			for d := -2; d <= 2; d++ {
 				add(m + d)
